@@ -446,6 +446,170 @@ void add_s8(mc::Runner &R, const std::string &name, std::vector<int> sizes, bool
   R.add(s);
 }
 
+// ------------------------------------------------------------------ S6b: every sub-set of the triangles of a triangulated grid
+void add_s6b(mc::Runner &R, const std::string &name, int W, int H, bool quick, bool thorough) {
+  const int tris = 2 * W * H;
+  // (cfg 3: eb standard s0, eb valence s0, eb standard s5) x (diagonals 2) x mask
+  mc::Radix rx{3, 2, 1ull << tris};
+  auto make = [=](uint64_t idx, GeomDef *g, EncCfg *c) {
+    auto d = rx.decode(idx);
+    *g = gs::tri_subset_mesh(W, H, (int)d[1], d[2]);
+    static const int mk[3] = {2, 3, 2}, sp[3] = {0, 0, 5};
+    *c = gs::mesh_cfg(mk[d[0]], sp[d[0]]);
+    c->qbits = {11};
+  };
+  mc::Space s;
+  s.name = name;
+  s.size = rx.size();
+  s.quick = quick;
+  s.thorough = thorough;
+  s.run = [=](uint64_t idx, mc::Ctx &ctx) {
+    GeomDef g;
+    EncCfg c;
+    make(idx, &g, &c);
+    auto r = rt::check_roundtrip(g, c, ctx, "", !g_c09, g_c09);
+    if (r.decoded && g.faces.size() >= 4) {
+      ctx.count("cases_with_triangle_subset_of_grid");
+      ctx.nontrivial_unique();
+    }
+  };
+  s.describe = [=](uint64_t idx) {
+    GeomDef g;
+    EncCfg c;
+    make(idx, &g, &c);
+    auto d = rx.decode(idx);
+    return "triangle sub-set " + std::to_string(d[2]) + " of a " + std::to_string(W) + "x" + std::to_string(H) + " cell grid (diagonals " + (d[1] ? "alternating" : "uniform") + "): " + text(g) + " " + text(c);
+  };
+  R.add(s);
+}
+
+// ------------------------------------------------------------------ S9: point clouds with clusters of coincident points and explicit point->value maps
+// kd-tree cells stop splitting when all axes are exhausted (>= 64 coincident points take a special path); attributes whose
+// point->value map is not the identity (deduplicated or permuted storage) must still give every point its own values.
+void add_s9(mc::Runner &R, const std::string &name, bool quick, bool thorough) {
+  // (method/speed 8) x (representation 4) x (map mode 3) x (copies 5) x (layout 6)
+  mc::Radix rx{8, 4, 3, 5, 6};
+  auto make = [=](uint64_t idx, GeomDef *g, EncCfg *c, std::string *d) {
+    auto dg = rx.decode(idx);
+    static const int kCopies[5] = {1, 63, 64, 65, 200};
+    const int k = kCopies[dg[3]];
+    // logical point list: value ids (>= 0 distinct point number, < 0 cluster number)
+    std::vector<int> pts;
+    int next = 0;
+    auto distinct = [&](int n) { for (int i = 0; i < n; ++i) pts.push_back(next++); };
+    auto cluster = [&](int id) { for (int i = 0; i < k; ++i) pts.push_back(-1 - id); };
+    static const char *layouts[6] = {"cluster + 400 distinct", "200 distinct + cluster + 200 distinct", "400 distinct + cluster", "cluster + 130 distinct + cluster",
+                                     "three clusters", "70 distinct + cluster"};
+    switch (dg[4]) {
+      case 0: cluster(0); distinct(400); break;
+      case 1: distinct(200); cluster(0); distinct(200); break;
+      case 2: distinct(400); cluster(0); break;
+      case 3: cluster(0); distinct(130); cluster(1); break;
+      case 4: cluster(0); cluster(1); cluster(2); break;
+      default: distinct(70); cluster(0); break;
+    }
+    const int n = (int)pts.size();
+    g->is_mesh = false;
+    g->num_points = n;
+    auto coords = [](int id, uint32_t out[3]) {
+      if (id < 0) {
+        static const uint32_t C[3][3] = {{3, 165, 369}, {400, 0, 17}, {211, 396, 388}};
+        for (int j = 0; j < 3; ++j) out[j] = C[-1 - id][j];
+      } else {
+        out[0] = (uint32_t)(id * 37 + 1) % 401; out[1] = (uint32_t)(id * 91 + 5) % 397; out[2] = (uint32_t)(id * 53 + 2) % 389;
+      }
+    };
+    static const char *reps[4] = {"uint32 xyz", "float xyz q10", "float xyz q16 + int32 point number", "uint16 xyz + uint8 tag (deduplicated)"};
+    AttDef pos;
+    pos.type = GeometryAttribute::POSITION;
+    pos.nc = 3;
+    pos.uid = 0;
+    pos.dt = dg[1] == 0 ? DT_UINT32 : dg[1] == 3 ? DT_UINT16 : DT_FLOAT32;
+    auto value = [&](int id) {
+      uint32_t v[3];
+      coords(id, v);
+      if (pos.dt == DT_UINT32) return bytes_of(std::vector<uint32_t>{v[0], v[1], v[2]});
+      if (pos.dt == DT_UINT16) return bytes_of(std::vector<uint16_t>{(uint16_t)v[0], (uint16_t)v[1], (uint16_t)v[2]});
+      return bytes_of(std::vector<float>{v[0] / 400.f, v[1] / 400.f, v[2] / 400.f});
+    };
+    static const char *maps[3] = {"identity map", "deduplicated entries", "entries stored in permuted order"};
+    if (dg[2] == 0) {
+      for (int p2 = 0; p2 < n; ++p2) pos.entries.push_back(value(pts[p2]));
+    } else if (dg[2] == 1) {
+      std::map<int, int> entry_of;
+      for (int p2 = 0; p2 < n; ++p2) {
+        auto it = entry_of.find(pts[p2]);
+        if (it == entry_of.end()) {
+          it = entry_of.emplace(pts[p2], (int)pos.entries.size()).first;
+          pos.entries.push_back(value(pts[p2]));
+        }
+        pos.map.push_back(it->second);
+      }
+    } else {
+      // entry e holds the value of point (7e+3) mod n  <=>  point p maps to entry inv(p)
+      pos.entries.resize(n);
+      pos.map.resize(n);
+      int step = 7;
+      while (std::__gcd(step, n) != 1) ++step;
+      for (int e = 0; e < n; ++e) {
+        const int p2 = (int)(((int64_t)step * e + 3) % n);
+        pos.entries[e] = value(pts[p2]);
+        pos.map[p2] = e;
+      }
+    }
+    g->atts = {pos};
+    c->qbits = {dg[1] == 1 ? 10 : dg[1] == 2 ? 16 : 0};
+    if (dg[1] == 2) {
+      AttDef num;
+      num.type = GeometryAttribute::GENERIC;
+      num.dt = DT_INT32;
+      num.nc = 1;
+      num.uid = 5;
+      for (int p2 = 0; p2 < n; ++p2) num.entries.push_back(bytes_of(std::vector<int32_t>{p2}));
+      g->atts.push_back(num);
+      c->qbits.push_back(0);
+    } else if (dg[1] == 3) {
+      AttDef tag;
+      tag.type = GeometryAttribute::GENERIC;
+      tag.dt = DT_UINT8;
+      tag.nc = 1;
+      tag.uid = 5;
+      for (int t = 0; t < 5; ++t) tag.entries.push_back(bytes_of(std::vector<uint8_t>{(uint8_t)(t * 50)}));
+      for (int p2 = 0; p2 < n; ++p2) tag.map.push_back((p2 * 3 + (pts[p2] < 0 ? 1 : 0)) % 5);
+      g->atts.push_back(tag);
+      c->qbits.push_back(0);
+    }
+    static const int meth[8] = {1, 1, 1, 1, 1, 1, 0, 0}, sp[8] = {0, 1, 4, 5, 6, 10, 0, 10};
+    c->method = meth[dg[0]] ? POINT_CLOUD_KD_TREE_ENCODING : POINT_CLOUD_SEQUENTIAL_ENCODING;
+    c->speed_enc = c->speed_dec = sp[dg[0]];
+    if (d) *d = std::string("cloud: ") + layouts[dg[4]] + ", cluster = " + std::to_string(k) + " coincident points, " + reps[dg[1]] + ", " + maps[dg[2]];
+  };
+  mc::Space s;
+  s.name = name;
+  s.size = rx.size();
+  s.quick = quick;
+  s.thorough = thorough;
+  s.timeout_s = 60;
+  s.run = [=](uint64_t idx, mc::Ctx &ctx) {
+    GeomDef g;
+    EncCfg c;
+    make(idx, &g, &c, nullptr);
+    auto r = rt::check_roundtrip(g, c, ctx, "", !g_c09, g_c09);
+    if (r.decoded) {
+      ctx.count("cases_with_clustered_cloud");
+      ctx.nontrivial_unique();
+    }
+  };
+  s.describe = [=](uint64_t idx) {
+    GeomDef g;
+    EncCfg c;
+    std::string d;
+    make(idx, &g, &c, &d);
+    return d + " " + text(c);
+  };
+  R.add(s);
+}
+
 // ------------------------------------------------------------------ S7: attribute order, unique ids, two attributes of one type
 void add_s7(mc::Runner &R, const std::string &name, bool quick, bool thorough) {
   // attribute pool
@@ -1083,6 +1247,8 @@ int main(int argc, char **argv) {
     add_s6(R, "S6_subgrids_3x3", 3, 3, true, true);
     add_s6(R, "S6_subgrids_4x4", 4, 4, true, true);
     add_s6(R, "S6_subgrids_5x4", 5, 4, false, true);
+    add_s6b(R, "S6b_triangle_subsets_3x3", 3, 3, true, true);
+    add_s6b(R, "S6b_triangle_subsets_4x3", 4, 3, false, true);
     add_s2b(R, "S2b_F2_two_attributes_reduced", &g_topos_f2_only, false, {0}, true, false, true);
     add_s2b(R, "S2b_closed_second_attribute_per_face_reduced", &g_topos_s2b_perface, true, {0, 5}, true, false, true);
     add_s2b(R, "S2b_F2_two_attributes", &g_topos_f2_only, false, {0, 5}, false, true);
@@ -1106,6 +1272,7 @@ int main(int argc, char **argv) {
       add_s3(R, "asan_S3_quick", q, true, true, false, true);
       add_s3(R, "asan_S3", t, false, true, true);
       add_s7(R, "asan_S7_attribute_order_and_ids", true, true);
+      add_s9(R, "asan_S9_clustered_clouds_and_point_maps", true, true);
       add_s8(R, "asan_S8_full_range_grids", {4, 8}, true, true);
       add_s8(R, "asan_S8_full_range_grids_12_24", {12, 24}, false, true);
       add_s4(R, "asan_S4_N3", 3, {0, 4, 10}, true, false);
